@@ -45,7 +45,9 @@ func newRelEngine(c *Ctx, f *ssa.Function, posts map[*ssa.Function]*postCond) *r
 	fe.override = func(v ssa.Value) (poly, bool) {
 		switch x := v.(type) {
 		case *ssa.Call:
-			if b, ok := x.Call.Value.(*ssa.Builtin); ok && (b.Name() == "len" || b.Name() == "cap") && len(x.Call.Args) == 1 {
+			// len only: cap(x) may exceed len(x), and a bound against the capacity says nothing about
+			// the octets the caller handed over (re-slicing up to cap does not panic, it over-reads)
+			if b, ok := x.Call.Value.(*ssa.Builtin); ok && b.Name() == "len" && len(x.Call.Args) == 1 {
 				return e.lenForm(x.Call.Args[0], 0), true
 			}
 		case *ssa.Convert:
